@@ -177,7 +177,7 @@ func (c04Engine) Gen(seed uint64, idx int, tier string) interface{} {
 			o.ConstExpr = append(o.ConstExpr, names[fr.Intn(len(names))])
 		}
 		if fr.Chance(1, 3) {
-			o.OperatorOp = []string{"+", "-", "==", "**", "in", "and", "%%", ""}[fr.Intn(8)]
+			o.OperatorOp = []string{"+", "-", "==", "!=", "**", "in", "<", "and", "%%", ""}[fr.Intn(10)]
 			for k := 0; k <= fr.Intn(2); k++ {
 				o.OperatorFns = append(o.OperatorFns, opFns[fr.Intn(len(opFns))])
 			}
@@ -635,7 +635,15 @@ func (c04Engine) Run(sci interface{}, ctx *RunCtx) *Finding {
 			ctx.Count("programs_run_after_faulty_compile", 1)
 		}
 		// also the simplest sources under this option set (result directives on nil, literals)
-		for _, s := range []string{"nil", "1", "\"s\"", "[]", "{}", "Xs", "Any", "nil ?: 1", "#"} {
+		extra := []string{"nil", "1", "\"s\"", "[]", "{}", "Xs", "Any", "nil ?: 1", "#"}
+		if o.OperatorOp != "" {
+			// operands without a static type, dynamic operands and mismatched operands
+			// around the overloaded operator
+			for _, pair := range [][2]string{{"On", "nil"}, {"nil", "On"}, {"O?.Next", "O"}, {"O", "O?.Nope"}, {"Any", "1"}, {"A", "B"}, {"S", "nil"}, {"nil", "nil"}, {"O", "O.Next"}, {"Xs", "Mp"}} {
+				extra = append(extra, pair[0]+" "+o.OperatorOp+" "+pair[1])
+			}
+		}
+		for _, s := range extra {
 			p := doCompile(label+" on "+s, s, sw, opts...)
 			if p != nil {
 				envv, _ := mkEnv(sc.Env, nil, nil, "")
